@@ -5,7 +5,8 @@ from vlib.wsgi import call
 INFO = {
     'level': 'exploration',
     'rule': ('routing tables of 1-4 routes (pattern x method set x behaviour from catalogues, one slash mode per '
-             'table) built by constructor list or by a generated sequence of add(entry, index); every table is '
+             'table) built by constructor list or by a generated sequence of add(entry, index) - with or without requests served '
+             'between the add() calls; every table is '
              'sent the full request catalogue (12 paths x 8 methods). A request is non-trivial when >=2 routes '
              'match its path, a non-breaking error falls through, or the answer is 405; distinct_nontrivial '
              'counts distinct tables with at least one such request (request-level counts are under classes).'),
@@ -27,13 +28,14 @@ def strategy():
                       st.sampled_from(ENTRY_KINDS), st.one_of(st.none(), st.integers(-3, 5)))
     return st.fixed_dictionaries({
         'mode': st.sampled_from(list(U.MODES)),
-        'build': st.sampled_from(['list', 'add']),
+        'build': st.sampled_from(['list', 'add', 'add-req']),
         'routes': st.lists(route, min_size=1, max_size=4),
     })
 
 
-def build(case):
-    """-> (app, model table).  The model table is kept with list.insert, as the statement says."""
+def build(case, after_add=None):
+    """-> (app, model table).  The model table is kept with list.insert, as the statement says.
+    after_add(app, table): called after every add() (build mode 'add-req': requests between the add() calls)"""
     from clastic import Application, Route
     from clastic import route as R
     mode = case['mode']
@@ -61,6 +63,8 @@ def build(case):
             else:
                 app.add(entry, index)
                 table.insert(index, e)
+            if after_add is not None and case['build'] == 'add-req':
+                after_add(app, table)
     return app, table
 
 
@@ -107,7 +111,13 @@ def body(case, ctx, requests=None):
     case = {'mode': case['mode'], 'build': case['build'], 'routes': [list(r) for r in case['routes']]}
     ctx.current = case
     M.reset_shared()
-    app, table = build(case)
+
+    def between(app_, table_):
+        # the application serves requests while its table is still being built: every path, two methods
+        for path in PATHS:
+            for method in ('GET', 'POST'):
+                check_request(ctx, app_, list(table_), path, method, case)
+    app, table = build(case, after_add=between if requests is None else None)
     got = [r.pattern for r in app.routes]
     want = [e.pattern for e in table]
     if got != want:
